@@ -656,7 +656,7 @@ LEAVES = [
      'ConcatenateMSBF', 'ConcatenateLSBF', 'Range']
 ] + [
     ('py4hw/logic/arithmetic.py', c, 'propagate', 'propagate') for c in
-    ['AddCarryIn', 'SignExtend', 'ZeroExtend', 'Mul', 'SignedMul', 'Div', 'Mod', 'Sub']
+    ['AddCarryIn', 'SignExtend', 'ZeroExtend', 'Mul', 'SignedMul', 'Div', 'Mod', 'Sub', 'SubBorrowIn']
 ] + [
     ('py4hw/logic/storage.py', 'Latch', 'propagate', 'propagate'),
     ('py4hw/logic/storage.py', 'AsynchronousMemory', 'propagate', 'propagate'),
@@ -665,6 +665,7 @@ LEAVES = [
 SEQ = [
     ('py4hw/logic/storage.py', 'Reg', 'clock', 'clock'),
     ('py4hw/logic/storage.py', 'SynchronousMemory', 'clock', 'clock'),
+    ('py4hw/logic/storage.py', 'DualPortSynchronousMemory', 'clock', 'clock'),
     ('py4hw/logic/clock.py', 'AutoReset', 'clock', 'clock'),
     ('py4hw/logic/protocol/uart/serdes.py', 'UARTSerializer', 'clock', 'clock'),
     ('py4hw/logic/protocol/uart/serdes.py', 'UARTDeserializer', 'clock', 'clock'),
